@@ -282,7 +282,8 @@ class MatchesPredicate(Matcher):
 
     def match(self, x):
         if not self.predicate(x):
-            return Mismatch(self.message % x)
+            # (x,) so that a tuple matchee is formatted as one value too.
+            return Mismatch(self.message % (x,))
 
 
 def MatchesPredicateWithParams(predicate, message, name=None):
